@@ -72,6 +72,17 @@ def coq_value(v):
     return "(VTok %s)" % D.z(1000 + TOKENS.index(r))
 
 
+def json_default(v):
+    if v is Required:
+        return ["req"]
+    if v is None or isinstance(v, (bool, int)):
+        return ["val", v]
+    r = repr(v)
+    if r not in TOKENS:
+        TOKENS.append(r)
+    return ["val", {"t": 1000 + TOKENS.index(r)}]
+
+
 def coq_default(v):
     return "DRequired" if v is Required else "(DVal %s)" % coq_value(v)
 
@@ -223,6 +234,7 @@ def main():
     other_mixins()
     out = [D.HEADER % "dump_c18.py", "Open Scope string_scope.\n", TYPES]
     sigs = []
+    jsigs = []
     for tag, cls, relfile, classname in CLASSES:
         order, src = from_source(relfile, classname)
         live = from_live(cls)
@@ -239,11 +251,20 @@ def main():
             need(s["varargs"] == l["varargs"] and s["varkw"] == l["varkw"], "%s.%s: */** differ" % (classname, name))
             pn = [p for p, _ in l["params"]]
             need(len(set(pn)) == len(pn), "%s.%s: duplicate parameter" % (classname, name))
+            jsigs.append(dict(cls=tag, name=name, params=[[p, json_default(d)] for p, d in l["params"]],
+                              varargs=l["varargs"], varkw=l["varkw"],
+                              kwonly=[[k, json_default(d)] for k, d in l["kwonly"]]))
             sigs.append("MkSig %s %s %s %s %s %s" % (
                 D.string(tag), D.string(name),
                 D.lst(D.pair(D.string(p), coq_default(d)) for p, d in l["params"]),
                 "true" if l["varargs"] else "false", "true" if l["varkw"] else "false",
                 D.lst(D.pair(D.string(k), coq_default(d)) for k, d in l["kwonly"])))
+    if "--json" in sys.argv:
+        import json
+        ini = lambda c: [[k, v] for k, v in inspect.signature(c.__init__).parameters["initial_context"].default.items()]
+        json.dump(dict(signatures=jsigs, mc_initial=ini(MachineController), bmp_initial=ini(BMPController)),
+                  sys.stdout)
+        return
     out.append("(* every method wrapped by ContextMixin.use_contextual_arguments, in source order *)\n")
     out.append(D.definition("all_signatures", "list msig", "[" + ";\n   ".join(sigs) + "]"))
     out.append("(* opaque default values: token 1000+i stands for the i-th of: %s *)\n"
